@@ -81,6 +81,10 @@ CHECKS = {
          'Static analysis of states.py, task.py and task_manager.py: the task state table is a linear order (contiguous non-final values, X_PENDING directly before X, finals share the maximum, stage order = pipeline order); Task._state is written only by __init__ and _update, _update is called only from the replay loop and the guarded pilot-death callback; in _update the DONE/FAILED early return and the single-step test (target - current != 1 raises) dominate the write; _task_state_progress raises on two finals before comparing values, returns empty lists without progress and builds range(current+1, target)+[target]; in the batch loop the raising calls are caught per notification, known states skipped, each passed state applied through _update and announced exactly once after the loop. Decides these guards on all paths, not the value semantics beyond them.',
          'Trusted: pubsub invokes the state callback once per message. Not decided: what application callbacks do.',
          'DESIGN.md section 5 / C06'),
+ 'C05': ('route-table agreement over all components (producer state/queue vs consumer), outcome tables by control dependence, exception-edge analysis of the component loop and the per-task handlers, hand-on counting with callee summary',
+         'Static analysis over all components: every pushing hand-on to a non-final state has an output row in its component and a consumer with an existing worker on the same (state, queue) - a missing row is a silently dropped task; exit code 0 <=> DONE, anything else FAILED with exit code and exception recorded; the client takes the final state from target_state and FAILED from its handler; a raising worker fails its things with the exception recorded and the component loop survives; all four stagers isolate failures per task, record the exception on that task and fail only that task; the client output stager hands each task on exactly once; FAILED/CANCELED advances record target_state, are published and never pushed, the agent hands the full task back. Decides these per-component necessary conditions, not the composition under arbitrary delivery orders.',
+         'Trusted: zmq queues deliver what is put into them; effect calls atomic. Not decided: composition of ten components under arbitrary message orders.',
+         'DESIGN.md section 5 / C05'),
 }
 PENDING = 'check not built yet in this round (static rules designed in DESIGN.md section 5); not claimed until the checker exists'
 NA = {}
